@@ -183,9 +183,17 @@ func RunRepl(prompt string, opts ...Option) {
 		rootDir = wd
 	}
 
+	// os.Root, unlike os.DirFS, does not follow symbolic links out of the root
+	// directory.  It stays open for the life of the REPL.
+	root, rerr := os.OpenRoot(rootDir)
+	if rerr != nil {
+		errlnf("Cannot open root directory: %v", rerr)
+		os.Exit(1)
+	}
+	defer root.Close() //nolint:errcheck
 	envOpts := []lisp.Config{
 		lisp.WithReader(parser.NewReader()),
-		lisp.WithLibrary(&lisp.FSLibrary{FS: os.DirFS(rootDir)}),
+		lisp.WithLibrary(&lisp.FSLibrary{FS: root.FS()}),
 	}
 
 	if cfg.stderr != nil {
